@@ -417,6 +417,15 @@ def r05_4(ctx, v, g, helpers):
     if rc is not None and rc.value.args:
         a0 = rc.value.args[0]
         if not (isinstance(a0, ast.Name) and a0.id in v.run.params):
+            # one thing is decidable about a pre-processing helper: an interval merge that overwrites the kept end with
+            # the current end (instead of the larger of the two) shrinks a region that contains the next one
+            pre = ctx.repo.resolve_call(v.run, a0) if isinstance(a0, ast.Call) else None
+            if pre is not None:
+                for st in walk_stmts(pre.node.body):
+                    w = shrinking_merge(pre, st)
+                    if w:
+                        ctx.violated("R05.4", pre.where(st), w, key_of(pre, f"merge-shrinks:{norm(st)[:60]}"))
+                        return
             raise AnalysisError("R05.4", v.run.where(rc), f"the regions are pre-processed (`{norm(a0)[:60]}`) before the node lookup: outside the rules (every requested region must still be covered)")
     # a per-contig node list that is kept for later regions must be a real list: a one-shot iterator (filter / map /
     # generator) is exhausted by the first region that scans it
@@ -526,6 +535,37 @@ class _Sub(ast.NodeTransformer):
 
             return copy.deepcopy(self.names[node.id])
         return node
+
+
+def shrinking_merge(f, st):
+    """`kept[-1][k] = end` inside `for ..., end in sorted(...)` under a test that does not compare `end` with the kept
+    end: intervals sorted by start may be nested, so the kept end can move down and the tail of the earlier region is no
+    longer searched."""
+    if not (isinstance(st, ast.Assign) and len(st.targets) == 1 and isinstance(st.targets[0], ast.Subscript) and isinstance(st.value, ast.Name)):
+        return None
+    tg = st.targets[0]
+    if not (isinstance(tg.value, ast.Subscript) and const_value(tg.value.slice, None) == -1):
+        return None
+    end = st.value.id
+    loop = guard = None
+    for n in walk_own(f.node):
+        if isinstance(n, ast.For) and any(x is st for x in ast.walk(n)) and isinstance(n.target, ast.Tuple) and n.target.elts and norm(n.target.elts[-1]) == end:
+            loop = n
+    if loop is None or not (isinstance(loop.iter, ast.Call) and norm(loop.iter.func) == "sorted"):
+        return None
+    for n in walk_stmts(loop.body):
+        if isinstance(n, ast.If) and any(x is st for x in n.body):
+            guard = n
+    if guard is None:
+        return None
+    kept = norm(tg)
+    for c in ast.walk(guard.test):
+        if isinstance(c, ast.Compare) and end in names_in(c) and kept in norm(c):
+            return None  # the ends are compared: not this rule's shape
+    if kept not in norm(guard.test) and norm(tg.value) not in norm(guard.test):
+        return None
+    return (f"`{norm(st)}` replaces the end of the region kept so far with the end of the overlapping region that follows in start order, "
+            f"which may be smaller (CONTIG:10-100 then CONTIG:20-30 gives 10-30): the nodes under the rest of the first region are not looked up")
 
 
 def region_triple(ctx, g, region_loop, call):
